@@ -3,15 +3,16 @@
 # a snapshot of /verif (taken by `tools/try_mutant_iso.sh --snap`) under /tmp/scratch/vsnap whose harness
 # depends on the scratch worktree /tmp/wt/mut. usage: try_mutant_iso.sh <patch.diff> <Cxx>...
 set -u
-S=/tmp/scratch/vsnap
+S=${ISO_SNAP:-/tmp/scratch/vsnap}
+W=${ISO_WT:-/tmp/wt/mut}
 if [ "$1" = "--snap" ]; then
   mkdir -p $S && rsync -a --delete --exclude target --exclude .git --exclude replays /verif/ $S/ && mkdir -p $S/replays
-  sed -i 's#path = "/repo"#path = "/tmp/wt/mut"#' $S/harness/Cargo.toml
-  sed -i 's#"/repo/src/#"/tmp/wt/mut/src/#; s#(/repo/src/#(/tmp/wt/mut/src/#' $S/driver/engines.py
+  sed -i "s#path = \"/repo\"#path = \"$W\"#" $S/harness/Cargo.toml
+  sed -i "s#\"/repo/src/#\"$W/src/#; s#(/repo/src/#($W/src/#" $S/driver/engines.py
   echo "snapshot taken"; exit 0
 fi
 patch="$1"; shift
-cd /tmp/wt/mut || exit 3
+cd $W || exit 3
 git checkout -q -- .
 git apply "$patch" || { echo "patch does not apply"; exit 3; }
 cd $S
@@ -20,4 +21,4 @@ for p in "$@"; do
   echo "== $p rc=$rc"
   echo "$out" | grep -E '^(VIOLATION|INCONCLUSIVE|HELD|KNOWN|  engine|  detail|  case)' | cut -c1-500 | head -${LINES_MAX:-14}
 done
-git -C /tmp/wt/mut checkout -q -- .
+git -C $W checkout -q -- .
